@@ -15,6 +15,7 @@ import (
 	"io"
 	"os"
 	"regexp"
+	"runtime/debug"
 	"strconv"
 	"strings"
 	"sync"
@@ -268,8 +269,11 @@ func TestVerifReaders(t *testing.T) {
 	vkLoadInput(t, &in)
 	tr := vkOpenTrace(t)
 	defer tr.Close()
+	if mb := vkEnvInt("VERIF_SOFT_MEM_MB", 0); mb > 0 {
+		debug.SetMemoryLimit(int64(mb) << 20)
+	}
 	lim := vrLimitMemory(t, uint64(vkEnvInt("VERIF_MEM_EXTRA_MB", 1024))<<20)
-	deadline := time.Duration(vkEnvInt("VERIF_CALL_DEADLINE_S", 10)) * time.Second
+	deadline := time.Duration(vkEnvInt("VERIF_CALL_DEADLINE_S", 20)) * time.Second
 	marks := os.Getenv("VERIF_MARK") != "0" // a flushed line before every call: tells which call a dying process was in
 	bases := map[string][]byte{}
 	crcOK := true
